@@ -21,9 +21,10 @@ pub fn run(stim: &Value, rec: &Rec) {
                 2 => MetadataValue::<Binary>::try_from(v.clone()).ok(),
                 _ => MetadataValue::<Binary>::try_from(&v[..]).ok(),
             };
-            match (MetadataKey::<Binary>::from_bytes(&nb), val) { (Ok(k), Some(val)) => { m.append_bin(k, val); true } _ => false }
+            // the key is handed over owned, or borrowed (every other entry): `append` takes either
+            match (MetadataKey::<Binary>::from_bytes(&nb), val) { (Ok(k), Some(val)) => { if accepted.len() % 2 == 0 { m.append_bin(k, val); } else { m.append_bin(&k, val); } true } _ => false }
         } else {
-            match (MetadataKey::<Ascii>::from_bytes(&nb), MetadataValue::<Ascii>::try_from(&v[..])) { (Ok(k), Ok(val)) => { m.append(k, val); true } _ => false }
+            match (MetadataKey::<Ascii>::from_bytes(&nb), MetadataValue::<Ascii>::try_from(&v[..])) { (Ok(k), Ok(val)) => { if accepted.len() % 2 == 0 { m.append(k, val); } else { m.append(&k, val); } true } _ => false }
         };
         accepted.push(ok);
     }
